@@ -256,6 +256,25 @@ def params_c14():
     if so.index("self.output_path_files") > so.index("self._move_path"):
         raise ValueError("PathStorage.output: text files are expected to be written before the move")
     L += [f"Definition acc_dir : list Z := {zs(m.group(1))}.", f"Definition store_status : list Z := {zs(m2.group(1))}."]
+    # leftovers of an earlier attempt are removed from the target directory before the path is stored (fix 5456497);
+    # variant flag: are the files the path itself refers to spared?  (proposed_fixes/C14_store_keeps_own_files.diff)
+    loops = [n for n in ast.walk(out) if isinstance(n, ast.For) and ast.unparse(n.iter) == "os.listdir(traj_dir)"]
+    if len(loops) != 1 or so.index("os.listdir(traj_dir)") > so.index("self.output_path_files") or so.index("make_dirs(traj_dir)") > so.index("os.listdir(traj_dir)"):
+        raise ValueError("PathStorage.output: expected one clean-up loop over os.listdir(traj_dir) between make_dirs and the writes")
+    body = loops[0].body
+    if not (len(body) == 2 and ast.unparse(body[0]) == f"leftover_file = os.path.join(traj_dir, {loops[0].target.id})" and isinstance(body[1], ast.If)
+            and not body[1].orelse and len(body[1].body) == 1 and ast.unparse(body[1].body[0]) == "os.remove(leftover_file)"):
+        raise ValueError("PathStorage.output: unexpected clean-up loop")
+    test = ast.unparse(body[1].test)
+    if test == "os.path.isfile(leftover_file)":
+        keeps_own = False
+    elif test == "os.path.isfile(leftover_file) and os.path.abspath(leftover_file) not in own" \
+            and "own = {os.path.abspath(pp.config[0]) for pp in path.phasepoints}" in so \
+            and so.index("own = {") < so.index("os.listdir(traj_dir)"):
+        keeps_own = True
+    else:
+        raise ValueError(f"PathStorage.output: unexpected clean-up condition {test}")
+    L.append(f"Definition store_keeps_own : bool := {'true' if keeps_own else 'false'}.")
     # ---- load_path
     ptree = ast.parse(pe.src(PATH))
     lp = ast.unparse(pe.find_func(ptree, "load_path")).replace("'", '"')
